@@ -88,10 +88,11 @@ class Interp:
                 binds.append(([n.target.id], n.value))
         for names, v in binds:
             seed = False
-            if isinstance(v, ast.Call):
-                last = ast.unparse(v.func).split(".")[-1]
-                if last in LOOKUPS or last in ("Validator", "validate") or "envelope" in last or "error_response" in last:
-                    seed = True
+            for v_ in ([v.body, v.orelse] if isinstance(v, ast.IfExp) else [v]):
+                if isinstance(v_, ast.Call):
+                    last = ast.unparse(v_.func).split(".")[-1]
+                    if last in LOOKUPS or last in ("Validator", "validate") or "envelope" in last or "error_response" in last:
+                        seed = True
             if isinstance(v, ast.Constant) and v.value in STATUSES:
                 seed = True
             if isinstance(v, ast.Dict) and any(isinstance(k, ast.Constant) and k.value == STATUS_KEY for k in v.keys):
